@@ -237,7 +237,7 @@ impl Stage for Histories {
 pub fn spec() -> PropertySpec {
     PropertySpec {
         id: "C10",
-        stages: vec![Box::new(Histories)],
+        stages: vec![Box::new(Histories), Box::new(super::maint::C10Wire)],
         assumptions: vec![
             "Component tier drives RoutingTable/Node through hook H2 exactly as handler.rs does (add_node(as_good) for an accepted answer, add_node(as_questionable) for a named node, find_node_mut().remote_request()/local_request()).".into(),
             "A dropped contact that another node names again is a fresh hearsay contact (C11's wording confirms this reading).".into(),
